@@ -114,11 +114,11 @@ ArgsFor(op) ==
                s \in {Sets1("_s", XA("x1", FALSE, FALSE)), Sets1("u", XA("x2", FALSE, FALSE)), Sets1("_t", XA("x1", TRUE, TRUE))}}
       [] op = "SetWithMeta" ->
            {WithBody([A0 EXCEPT !.exp = e, !.casc = c, !.newc = nc, !.sets = s, !.json = (b = "J1")], b) :
-               e \in {"0", "E1"}, c \in CasClasses, nc \in {"hi", "mid", "low"}, s \in PlainSets \cup {NoSets},
+               e \in {"0", "E1"}, c \in CasClasses, nc \in {"hi", "mid", "low", "btw", "far"}, s \in PlainSets \cup {NoSets},
                b \in {"J1", "R1", ""}}
       [] op = "DeleteWithMeta" ->
            {[A0 EXCEPT !.exp = e, !.casc = c, !.newc = nc, !.sets = s] :
-               e \in {"0"}, c \in CasClasses, nc \in {"hi", "mid", "low"}, s \in PlainSets \cup {NoSets}}
+               e \in {"0"}, c \in CasClasses, nc \in {"hi", "mid", "low", "btw", "far"}, s \in PlainSets \cup {NoSets}}
       [] op = "WriteSubDoc" ->
            {[A0 EXCEPT !.path = p, !.casc = c, !.val = v] :
                p \in Leaves, c \in {"zero", "cur", "stale"}, v \in {"s1", "s2", ""}}
@@ -146,7 +146,9 @@ Resolve(a, d) ==
                         [] a.casc = "cur" -> IF IsAbsent(d) THEN 9999 ELSE d.cas
                         [] a.casc = "stale" -> 9998
                         [] OTHER -> 9997,
-              !.newcas = CASE a.newc = "hi" -> MaxCas + 1
+              \* "btw": above the collection's own newest CAS, below another collection's (in this model: a new top);
+              \* "far": a minute ahead of the process clock
+              !.newcas = CASE a.newc \in {"hi", "btw", "far"} -> MaxCas + 1
                            [] a.newc = "mid" -> IF d.cas > 1 THEN d.cas - 1 ELSE MaxCas + 1
                            [] OTHER -> 1]
 
